@@ -24,6 +24,7 @@ import (
 // Exit codes: 0 held, 1 violation (VIOLATION line printed), 2 trouble.
 
 var verifDir = "/verif"
+var outDir = "/verif"
 
 type ReplayFile struct {
 	Property  string             `json:"property"`
@@ -90,6 +91,10 @@ func main() {
 	}
 	if d := os.Getenv("VERIF_DIR"); d != "" {
 		verifDir = d
+	}
+	outDir = verifDir
+	if d := os.Getenv("VERIF_OUT_DIR"); d != "" {
+		outDir = d // evidence and replay files go here (used when judging scratch trees)
 	}
 	defer func() {
 		if r := recover(); r != nil {
@@ -252,7 +257,7 @@ func cmdWorker(args []string) int {
 		}
 		rf := eng.Minimise(*prop, *tier, i, tape.Snapshot(), *unknown)
 		rf.Seed, rf.Run, rf.SubSeed, rf.Tier = *seed, i, sub, *tier
-		path := filepath.Join(verifDir, "replays", fmt.Sprintf("%s-%d-%d.json", *prop, *seed, i))
+		path := filepath.Join(outDir, "replays", fmt.Sprintf("%s-%d-%d.json", *prop, *seed, i))
 		os.MkdirAll(filepath.Dir(path), 0o755)
 		b, _ := json.MarshalIndent(rf, "", " ")
 		os.WriteFile(path, b, 0o644)
